@@ -106,7 +106,7 @@ def twin_sigma(task: dict) -> str:
         rng.shuffle(order)
         style = rng.choice(["dnf", "shannon"])
         text = bn.render_bnet(tt_b, names_b, style, rng, order)
-        fmt = rng.choice(["bnet", "bnet", "aeon", "sbml"])
+        fmt = rng.choice(["bnet", "bnet", "aeon", "sbml", "bnet-file", "aeon-file", "sbml-file"])
         b = rec.record_trace(f"{task['tid']}_v{k}", tt_b, ops_for_sigma(ops, perm, neg, n, names_b), task.get("cfg"),
                              names=names_b, text=text, fmt=fmt)
         code_b = b["names"]
